@@ -7,6 +7,9 @@ VERIF = os.path.dirname(os.path.dirname(os.path.abspath(__file__)))
 
 # id -> (technique, level text, level note, design ref)   -- only checks that exist under mc/checks are claimed
 CHECKS = {
+    "C05": ("explicit-state BFS over versioning histories on the real objects with the wall-clock answer as an explored environment choice",
+            "From 11 start forms (2.0/2.1 SDO and SRO as object and as dict, sub-millisecond start, registered custom object, unregistered custom dict, versionable 2.1 SCO) every history of new_version/revoke/marking operations up to depth 2 over the full alphabet (change/add/remove one or two properties, required and unmodifiable and id-contributing properties incl. None values, explicit modified at 6 offsets as string and datetime) and up to depth 4 over a reduced alphabet is executed; at every clock-reading operation all 8 clock answers relative to the current modified (-1 s ... +1 s, incl. sub-precision steps) are explored. Frame invariants, exact change-set application, strict ordering of serialized instants at the version precision and the refusal rules are checked on every transition; all ordered pairs of forms are also run back to back in one process (shared module state).",
+            "trusted: clock seam (module attributes replaced, answer frozen per operation); integer timestamp parser mc/ref/tsfmt.py; states merged on the serialized object text", "DESIGN.md §3 C05"),
     "C18": ("exhaustive enumeration of data partitions x attachment orders x navigation options against a union list model",
             "Every assignment of an 8-element population (3 versions of one id, related objects, creator, relationship objects in two versions and both directions) to non-empty subsets of 2 member sources x both attachment orders, the version triple over 3 members x all 6 orders, composite filters, nested composites, filesystem members, single stores incl. a self-relationship, and every get/all_versions/query/relationships/related_to/creator_of option combination through CompositeDataSource, Environment(source=), Environment(store=) is executed and compared with the de-duplicated union; the ObjectFactory.create default/argument/list_append table (2x16x81) is enumerated completely.",
             "trusted: union list model in mc/checks/c18_federation.py; navigation with composite-attached filters is not asserted (undefined)", "DESIGN.md §3 C18"),
